@@ -541,6 +541,24 @@ def run(tier, seed):
     rep.obligation("O-C16c: newest kept; another file kept iff cumulative size from the newest < bound (real GC)", "O", not gfail,
                    brief(gfail))
 
+    # ---- O-C16e: the same bound for SECONDARY loggers (shakespeare's narrator / spotlight / audit / collector logs) ----
+    sfail = []
+    for own in (False, True):
+        for (mxs, comb, nmsg) in ([(300, 1000, 30)] if quick else [(300, 1000, 30), (300, 0, 12), (2000, 5000, 60)]):
+            r = impl.call("logSecondary", MaxSize=mxs, Combined=comb, N=nmsg, OwnDir=own)
+            fs = r.get("files")
+            rep.case(("secondary", own, mxs, comb, nmsg))
+            rep.count("secondary-logger-gc:" + ("own directory" if own else "main directory"))
+            if fs is None:
+                sfail.append({"harness": r})
+                continue
+            sz = ",".join(str(f["Size"]) for f in fs) or "0"
+            o = model.ask("C16 oracle-gc %d %s %s" % (comb, sz, "t" * max(1, len(fs))))
+            if o != "ok" or not fs:
+                sfail.append({"secondary logger": "own directory" if own else "main directory", "LogFileMaxSize": mxs, "bound": comb, "messages": nmsg,
+                              "files_left": len(fs), "bytes_left": sum(f["Size"] for f in fs), "oracle": o})
+    rep.obligation("O-C16e: secondary loggers with GC enabled keep the newest file and otherwise stay below the bound", "O", not sfail, brief(sfail))
+
     # ---- O-C16d: rotation with the GC daemon running ------------------------------------------------
     dfail = []
     nrg = (25 if quick else 200) if H else 0
@@ -593,6 +611,9 @@ def run(tier, seed):
     if gfail:
         any_o = True
         rep.violation("GC kept/removed the wrong files", {"failing": gfail[:5]}, tags={"fn": "gcOldFiles"})
+    if sfail:
+        any_o = True
+        rep.violation("a secondary logger with GC enabled is not garbage collected: %s" % json.dumps(sfail[0])[:300], {"failing": sfail[:3]}, tags={"fn": "gcOldFiles", "logger": "secondary"})
     if dfail:
         any_o = True
         rep.violation("with GC running the read-back is not a gap-free tail including the newest message", {"failing": dfail[:3]},
